@@ -215,3 +215,42 @@ def spec_info(has_response, media_type, charset, doc, meta_charset, bom_alias=No
         enc = DEFAULTS[cls]
     return {'class': cls, 'encoding': enc, 'mismatch': known3(transport, xml, meta), 'http': transport, 'xml': xml,
             'meta': meta}
+
+
+# ----------------------------------------------------------------------------------------------
+# the HTML meta stage, on the start tags the parser reports
+def _attr(attrs, key):
+    """value of the LAST attribute whose name is `key` case-insensitively: lower-cased, '' for a value-less one"""
+    for name, value in reversed(list(attrs)):
+        if name.lower() == key:
+            return '' if value is None else value.lower()
+    return None
+
+
+def spec_meta(events):
+    """content (lower-cased) of the FIRST <meta> start tag with http-equiv = content-type (stripped, any case) that has a
+    non-empty content; None if there is none"""
+    for tag, attrs in events:
+        if tag != 'meta':
+            continue
+        he = _attr(attrs, 'http-equiv')
+        if he is None or he.strip() != 'content-type':
+            continue
+        c = _attr(attrs, 'content')
+        if c:
+            return c
+    return None
+
+
+# ----------------------------------------------------------------------------------------------
+def spec_try(b):
+    """tryEncodings without chardet, from its docstring: the first of ascii, iso-8859-1 (windows-1252 if that works too and
+    shows a Euro sign), utf-8 that decodes the bytes"""
+    if all(x < 128 for x in b):
+        return 'ascii'
+    try:
+        if '€' in codecs.decode(b, 'cp1252'):
+            return 'windows-1252'
+    except UnicodeDecodeError:
+        pass
+    return 'iso-8859-1'
